@@ -19,7 +19,12 @@ CLAIMED = {
          'Each of 105 handshake scenarios (5 key exchanges x 3 versions x full/resumed/renegotiation x client-auth kinds) is replayed on the real engines once per fault: every byte of every handshake and CCS record of both flights is altered (quick: 6 scenarios complete, the rest every 8th byte; thorough: all bytes x 3 XOR values), plus drop/duplicate/swap/substitute at every record index; the destination endpoint must never become ready (or re-key), no application byte may be delivered, protected records must be rejected on receipt. 245 authentication cases script the X.509 validator, keys, server policy, version ranges and fallback SCSV, with honest controls.',
          'An endpoint left waiting after its peer failed counts as never ready (no transport-closed API at engine level); a fully malicious server beyond what the policy API or a MITM can express is not modelled; error codes are not judged.'), 'C14': ('exploration', 'runtime monitoring: differential oracle against OpenSSL EVP (GCM, CCM) and a paper-level EAX reference under ASan/UBSan; exhaustive two-way splits and single-bit forgeries on short messages',
          'GCM, CCM and EAX contexts over every AES CTR/CTRCBC implementation (and every GHASH for GCM) are driven with generated keys, nonces, tag lengths, AAD and messages; ciphertext and tag must equal the reference, decrypt must invert, any schedule of inject/run calls must give the same bytes (all two-way splits for lengths 0..80, random multi-way above), every single-bit change must fail check_tag, forbidden CCM parameters must be refused at reset, reused contexts and EAX saved-state shortcuts must match a fresh context.',
-         'Trusts OpenSSL 3.0 EVP and the EAX reference written from the paper (validated against the paper vectors at start-up); sampled parameters.'),
+         'Trusts OpenSSL 3.0 EVP and the EAX reference written from the paper (validated against the paper vectors at start-up); sampled parameters.'), 'C05': ('exploration', 'sanitizers + coverage-guided fuzzing: 12 libFuzzer targets under ASan/UBSan with a T0 interpreter stack-bound hook, an interpreter step bound and status-consistency assertions',
+         'Every input-processing entry point family is fuzzed from run-time generated seed corpora (recorded valid handshakes, certificates, keys, PEM, signatures, boundary-size structures) with fuzzer-chosen chunking; post-handshake engine targets receive scripts of records sealed with the real keys. Any ASan/UBSan report, interpreter stack excursion (hook H2), work beyond 200000+4000*bytes interpreter steps per push, or inconsistent status getter aborts the run and is reported with the crashing input as replay artifact.',
+         'Finite, coverage-guided sampling bounded by -runs; red-zone tools miss non-adjacent and most intra-object overflows; clang-14 x86-64 build.'),
+ 'C13': ('exploration', 'runtime monitoring: differential oracle against OpenSSL EVP/legacy contexts and spec-level reference code under ASan/UBSan; exhaustive update partitions for short messages',
+         'All hash vtables, multihash, SHAKE, HMAC (incl. constant-time outCT over all (min,len,max) triples up to 3 blocks), TLS PRFs, HKDF, MGF1, HMAC_DRBG and AESCTR_DRBG are driven with generated messages, partitions, saved/injected states and key/seed/output lengths; every output is compared with OpenSSL or with reference code written from the specification, and re-runs must be identical.',
+         'Trusts OpenSSL 3.0 digests/HMAC/KDFs and the hand-written SP 800-90A / RFC 5869 / bearssl_rand.h references; sampled above the exhaustive bounds.'),
 }
 
 ENGINES = []
